@@ -36,7 +36,7 @@ theorem autoAddNodes_shape {s s' : Store} {name : String} {num : Nat} {choice : 
             · rename_i arr harr
               split at hdo
               · rename_i chunks hchunks
-                have hlen := generateFreeChunks_length harr
+                have hlen := allocChunks_length harr
                 have hmod' : num % 4 = 0 := by simpa using hmod
                 have hpn' : num / 2 ≠ 0 := by simpa using hpn
                 unfold proxyResourceToChunkStore at hchunks
